@@ -73,6 +73,28 @@ fn matrix(ctx: &mut Ctx) {
                 three(ctx, &jwt, &KeyForDecoding::from_secret(pem.as_bytes()), b, false, "confusion", &case, None);
             }
         }
+        // secrets that differ from the signing secret only at the end (a line ending, a blank, one byte
+        // less): other keys, however similar - also the other way round (token signed with the longer one)
+        if keys::family(a) == 0 {
+            let base = keys::HS_SECRET_A;
+            let mut near: Vec<(String, Vec<u8>)> = Vec::new();
+            for (label, tail) in [("lf", &b"\n"[..]), ("crlf", &b"\r\n"[..]), ("blank", &b" "[..]), ("tab", &b"\t"[..]), ("ff", &b"\x0c"[..])] {
+                let mut k = base.to_vec(); k.extend_from_slice(tail); near.push((format!("secret+{}", label), k));
+            }
+            near.push(("secret-minus-last-byte".to_string(), base[..base.len() - 1].to_vec()));
+            for (label, k) in &near {
+                ctx.report.evaluations += 1;
+                let case = json!({"kind":"near-miss-secret","token_alg":keys::alg_name(a),"key":label});
+                three(ctx, &jwt, &KeyForDecoding::from_secret(k), a, false, "near-miss-secret", &case, None);
+                let mut h = Header::new(a.clone());
+                h.typ = Some("sd-jwt".into());
+                if let Out::Ok(other) = real::sign(&h, &payload(), &sdjwt::KeyForEncoding::from_secret(k)) {
+                    let case = json!({"kind":"near-miss-secret","token_alg":keys::alg_name(a),"signed_with":label});
+                    three(ctx, &other, &keys::dec_key(0, 0), a, false, "near-miss-secret:signed-with-it", &case, None);
+                }
+                ctx.report.nontrivial_case(&case);
+            }
+        }
         // an attacker who knows the public key signs an HS token with it as secret
         if keys::family(a) != 0 {
             for hs in [Algorithm::HS256, Algorithm::HS384, Algorithm::HS512] {
